@@ -14,13 +14,13 @@ import mc
 # per property: random-driver profiles (name, quick histories, thorough histories, steps or None),
 # feature sets, and the rule that makes a history non-trivial for it
 PLAN = {
-    "C01": dict(profiles=[("static", 48, 480, None), ("full", 16, 120, None), ("edits", 8, 80, None)], features=["default", "alt"],
+    "C01": dict(profiles=[("static", 48, 480, None), ("full", 16, 120, None), ("edits", 8, 80, None), ("grow", 8, 80, None)], features=["default", "alt"],
                 nontrivial=lambda s: s["mustopen"] > 0,
                 rule="history in which at least one (key, encapsulation) pair is obliged to open by the cover relation"),
-    "C02": dict(profiles=[("static", 48, 480, None), ("full", 16, 120, None), ("edits", 8, 80, None)], features=["default", "alt"],
+    "C02": dict(profiles=[("static", 48, 480, None), ("full", 16, 120, None), ("edits", 8, 80, None), ("grow", 8, 80, None)], features=["default", "alt"],
                 nontrivial=lambda s: s["mustnot"] > 0,
                 rule="history in which at least one (key, encapsulation) pair is forbidden to open"),
-    "C03": dict(profiles=[("edits", 56, 500, None), ("big", 8, 80, None)], features=["default"],
+    "C03": dict(profiles=[("edits", 40, 400, None), ("grow", 24, 200, None), ("big", 8, 80, None)], features=["default"],
                 nontrivial=lambda s: s["after_edit_pairs"] > 0 and s["edits"] > 0,
                 rule="history with structure edits followed by judged (key, encapsulation) pairs"),
     "C04": dict(profiles=[("rotation", 56, 500, None), ("full", 8, 100, None)], features=["default"],
